@@ -128,9 +128,9 @@ DOMAIN = {
     "u_cell_delimiters": _delims, "v_cell_delimiters": _delims, "z_cell_delimiters": _delims,
     "octree_cells": _octree_cells, "layers": _layers, "prisms": _prisms,
     "collar": lambda r, e: [fval(r), fval(r), fval(r)],
-    "cost": lambda r, e: r.randrange(1, 100) / 2.0,
+    "cost": lambda r, e: r.choice([r.randrange(1, 100) / 2.0, r.randrange(1, 100)]),      # the setter accepts float or int
     "planning": lambda r, e: r.choice(["Default", "Ongoing", "Planned", "Completed", "No status"]),
-    "end_of_hole": lambda r, e: r.randrange(1, 100) / 2.0,
+    "end_of_hole": lambda r, e: r.choice([r.randrange(1, 100) / 2.0, r.randrange(1, 100)]),
     "surveys": _surveys,
     "default_collocation_distance": lambda r, e: r.choice([0.01, 0.5]),
     "values": _values,
@@ -142,7 +142,9 @@ DOMAIN = {
     "mapping": lambda r, e: r.choice(["linear", "equal_area", "logarithmic", "cdf"]),
     "number_of_bins": lambda r, e: r.choice([None, 5, 50]),
     "transparent_no_data": lambda r, e: r.random() < 0.5,
-    "color_map": lambda r, e: np.array([[fval(r), r.randrange(256), r.randrange(256), r.randrange(256), 255] for _ in range(r.randint(1, 3))], dtype=float),
+    # (None clears a stored colour map: a documented, valid assignment)
+    "color_map": lambda r, e: None if (r.random() < 0.5 and getattr(e, "color_map", None) is not None) else
+    np.array([[fval(r), r.randrange(256), r.randrange(256), r.randrange(256), 255] for _ in range(r.randint(1, 3))], dtype=float),
     "value_map": lambda r, e: {0: "Unknown", 1: r.choice(["one", "é"]), r.randrange(2, 9): "x"},
     "allow_delete_content": lambda r, e: r.random() < 0.5, "allow_move_content": lambda r, e: r.random() < 0.5,
     # workspace header
@@ -282,6 +284,10 @@ class SetterScenario(BaseScenario):
                 val = getattr(owner, py, None)
                 if val is not None:
                     out["attrs"][h5] = snapshot.canon(val.name.upper() if hasattr(val, "name") and h5 == "Primitive type" else val)
+            # assignable type attributes of the format document that the class's own attribute map does not list
+            for h5, py in (("Units", "units"),):
+                if h5 not in out["attrs"] and isinstance(getattr(type(owner), py, None), property) and getattr(owner, py) is not None:
+                    out["attrs"][h5] = snapshot.canon(getattr(owner, py))
             cmap = getattr(owner, "color_map", None)
             out["color_map"] = snapshot.canon(cmap.values.T) if cmap is not None and cmap.values is not None and len(cmap) else None
             vmap = getattr(owner, "value_map", None)
@@ -372,7 +378,10 @@ class SetterScenario(BaseScenario):
                         op = ops[i]
                     else:
                         kind = rng.choices(["set", "set_invalid", "gc", "reopen", "reopen_same", "observe"], [10, 2, 2, 3, 1, 2])[0]
-                        op = {"id": i, "k": kind, "sub": rng.getrandbits(64), "attr": rng.choice(attrs) if attrs else None, "check_after_reopen": rng.random() < 0.5}
+                        # (a third of the assignments go to an attribute assigned before in this run: second values, clearing values)
+                        again = [a for a in seen_attrs if a in attrs]
+                        attr = (rng.choice(again) if again and rng.random() < 0.35 else rng.choice(attrs)) if attrs else None
+                        op = {"id": i, "k": kind, "sub": rng.getrandbits(64), "attr": attr, "check_after_reopen": rng.random() < 0.5}
                     executed.append(op)
                     kind = op["k"]
                     sim.begin_op(op["sub"])
@@ -395,10 +404,14 @@ class SetterScenario(BaseScenario):
                             derived = self.derived(owner) if ref[0] == "entity" else None
                             del owner
                             ws.close()
-                            if kind == "reopen":
-                                ws = Workspace(path, mode="r+")
-                            else:
-                                ws.open()
+                            try:
+                                if kind == "reopen":
+                                    ws = Workspace(path, mode="r+")
+                                else:
+                                    ws.open()
+                            except Exception as err:  # pylint: disable=broad-except
+                                raise Violation("C03", "reopen_fails", f"{cls_name}: after assigning {seen_attrs[-3:]} the file cannot be opened: {type(err).__name__}: {str(err)[:120]}",
+                                                {"cls": cls_name, "exc": type(err).__name__, "last": seen_attrs[-1] if seen_attrs else None}) from None
                             sim.fault("ev:" + kind)
                             n_fault += 1 if n_ok else 0
                             owner = self.locate(ws, ref)
@@ -438,7 +451,11 @@ class SetterScenario(BaseScenario):
                 if expected is not None:
                     del owner
                     ws.close()
-                    ws = Workspace(path, mode="r")
+                    try:
+                        ws = Workspace(path, mode="r")
+                    except Exception as err:  # pylint: disable=broad-except
+                        raise Violation("C03", "reopen_fails", f"{cls_name}: after assigning {seen_attrs[-3:]} the file cannot be opened: {type(err).__name__}: {str(err)[:120]}",
+                                        {"cls": cls_name, "exc": type(err).__name__, "last": seen_attrs[-1] if seen_attrs else None}) from None
                     owner = self.locate(ws, ref)
                     got = self.live_view(ws, ref, owner)
                     diffs = self.diff_views(expected, got, "BEFORE-CLOSE", "REOPENED")
